@@ -52,7 +52,9 @@ Notify ==
     IF ~(FSet(R.foreign) \subseteq fg) \/ Outside(R.stored, S) THEN Bad("notify:foreign-trc-stored" \o fail)
     ELSE IF obs # expdb THEN Bad("notify:" \o DiffKey(expdb, obs) \o fail)
     ELSE IF R.latest < Latest(db) THEN Bad("notify:latest-regressed")
-    ELSE IF R.fetched # exp.fetched THEN
+    \* (the stores of other ISDs are not modelled: once a TRC of another ISD was loaded from disk, a
+    \*  notification for that ISD is only required to leave this ISD's store and the foreign set alone)
+    ELSE IF R.fetched # exp.fetched /\ ~(R.isd # 1 /\ fg # {}) THEN
          Bad("notify:fetch-order:" \o (IF Len(R.fetched) > Len(exp.fetched) THEN "more" ELSE
                                        IF Len(R.fetched) < Len(exp.fetched) THEN "fewer" ELSE "other") \o fail)
     ELSE /\ db' = obs
